@@ -293,6 +293,100 @@ func genC09(e *emitter, r *rng, tier string) {
 		}
 		b.emit(e, fmt.Sprintf("C09.random.alphabet%d", alphabet))
 	}
+	// state carried from one search to the next (caches of compiled patterns, reused tables): a
+	// pattern A that occurs, then improper relatives of A that must match nowhere — A with a
+	// "decimal carry" moved between neighbours (a-1, b+10 / a+1, b-10), with 256·k or 2^32·k
+	// added to a digit — then A again, and the other way round on a fresh Number
+	m := 60
+	if tier == "thorough" {
+		m = 800
+	}
+	for i := 0; i < m; i++ {
+		alphabet := 2 + r.intn(2)
+		length := r.pick([]int{12, 40, 101})
+		ns := ratWithDigits(lowEntropyDigits(r, length, alphabet))
+		if ns.digit == nil {
+			continue
+		}
+		st := r.intn(length - 3)
+		ln := 2 + r.intn(min(5, length-st-1))
+		var a []int
+		for k := 0; k < ln; k++ {
+			a = append(a, ns.digit(st+k))
+		}
+		rel := func() []int {
+			bb := append([]int(nil), a...)
+			j := r.intn(len(bb) - 1)
+			switch r.intn(4) {
+			case 0:
+				bb[j]--
+				bb[j+1] += 10
+			case 1:
+				bb[j]++
+				bb[j+1] -= 10
+			case 2:
+				bb[j] += r.pick([]int{256, -256, 65536, 1 << 32})
+			default:
+				bb[j] += 10
+				if j > 0 {
+					bb[j-1]--
+				}
+			}
+			return bb
+		}
+		b := newScriptBuilder(r, ns)
+		order := [][]int{a, rel(), a, rel(), rel(), a}
+		if r.coin(50) {
+			order = [][]int{rel(), a, rel(), a}
+		}
+		for _, pt := range order {
+			ps := patString(pt)
+			switch r.intn(4) {
+			case 0:
+				b.add("fa:0:%s", ps)
+			case 1:
+				b.add("ffn:0:%s:%d", ps, 1+r.intn(3))
+				b.add("fl:0:%s", ps)
+			case 2:
+				b.add("findr:0:%s:%d", ps, 2)
+				b.add("ff:0:%s", ps)
+			default:
+				b.add("m:0:%s:1000", ps)
+				b.add("bm:0:%s:1000", ps)
+			}
+		}
+		b.emit(e, "C09.consecutive_related_patterns")
+	}
+	// counts far above the number of occurrences, and MANY occurrences (more than 1024, 4096):
+	// the N-variants with n in the thousands and n = MaxInt ("all of them") must agree with FindAll
+	big := 6
+	if tier == "thorough" {
+		big = 60
+	}
+	for i := 0; i < big; i++ {
+		length := r.pick([]int{1100, 2100, 2200}) // below the depth of the oracle's and the model's digit tables (3000)
+		// a repeating decimal, available in every version: 1/9 = 0.111…, 12/99 = 0.1212…, 1/3, 7/9
+		rep := [][3]int{{1, 9, 1}, {12, 99, 1}, {1, 3, 3}, {7, 9, 7}, {21, 99, 2}}[r.intn(5)]
+		ns := numSpec{desc: fmt.Sprintf("R:%d:%d", rep[0], rep[1]), length: -2, allV: true}
+		b := newScriptBuilder(r, ns)
+		b.add("we:0:%d", length)
+		b.handles = append(b.handles, hinfo{0, length})
+		var pt []int
+		if r.coin(70) {
+			pt = []int{rep[2]}
+		}
+		ps := patString(pt)
+		for _, n := range []int{1025, 5000, maxInt} {
+			if r.coin(70) {
+				b.add("ffn:1:%s:%d", ps, n)
+			}
+			if r.coin(70) {
+				b.add("fln:1:%s:%d", ps, n)
+			}
+		}
+		b.add("fa:1:%s", ps)
+		b.emit(e, "C09.many_occurrences_large_n")
+	}
 }
 
 // ---------------------------------------------------------------- C15 searches stop at the answer
